@@ -62,6 +62,11 @@ static struct fault faults[MAX_FAULTS];
 static int nfaults = 0;
 static int perm_readdir = 0;
 static long sim_clock_base = 1790000000L; /* $SIM_CLOCK_BASE: where the simulated wall clock starts (seconds) */
+static char mount_pre[512];        /* "mount <rel>": that directory of the world is the root of another file system */
+static size_t mount_len = 0;
+static int stdout_dies_with_signal = 0; /* "stdout_sig 1": from the first raised signal on, writes to fd 1/2 fail with EPIPE
+                                          (the reader of the pipe got the same Ctrl-C and is gone) */
+static volatile int signal_raised = 0;
 static long stdout_fail_after = 0; /* the n-th and every later write to fd 1/2 fails with EPIPE (0 = never) */
 static long stdout_writes = 0;
 static uint64_t rng_state = 0x9E3779B97F4A7C15ULL;
@@ -230,6 +235,11 @@ static void load_plan(const char *path)
             perm_readdir = atoi(line + 5);
         } else if (!strncmp(line, "stdout_fail ", 12)) {
             stdout_fail_after = atol(line + 12);
+        } else if (!strncmp(line, "stdout_sig ", 11)) {
+            stdout_dies_with_signal = atoi(line + 11);
+        } else if (!strncmp(line, "mount ", 6)) {
+            snprintf(mount_pre, sizeof mount_pre, "%s", line + 6);
+            mount_len = strlen(mount_pre);
         } else if (!strncmp(line, "fault ", 6) && nfaults < MAX_FAULTS) {
             struct fault *f = &faults[nfaults];
             memset(f, 0, sizeof *f);
@@ -446,6 +456,13 @@ static int world_at(int dirfd, const char *path, char *rel, size_t relsz)
 
 static int world_path(const char *path, char *rel, size_t relsz) { return world_at(AT_FDCWD, path, rel, relsz); }
 
+/* simulated mount point: paths at or below it report another st_dev, renames across its boundary fail with EXDEV */
+static int in_mount(const char *rel)
+{
+    return mount_len && !strncmp(rel, mount_pre, mount_len) && (rel[mount_len] == 0 || rel[mount_len] == '/');
+}
+#define MOUNT_DEV_XOR 0x5a00
+
 static const char *fd_rel(int fd)
 {
     if (!active || fd < 0 || fd >= FD_MAX)
@@ -547,6 +564,7 @@ static void op_begin(struct opctx *c, const char *kind, const char *path)
     }
     if (sig_before) {
         tracef("-\tSIGNAL\t%s\t%d\t%ld\t0\t0\tbefore\n", path, sig_before, c->k);
+        signal_raised = 1;
         raise(sig_before);
     }
     if (kill_before) {
@@ -568,6 +586,7 @@ static void op_end(struct opctx *c, long flags, long req, long ret, int err)
         die_now();
     if (c->sig_after) {
         tracef("-\tSIGNAL\t%s\t%d\t%ld\t0\t0\tafter\n", c->path, c->sig_after, c->k);
+        signal_raised = 1;
         raise(c->sig_after);
     }
     pthread_mutex_unlock(&mu);
@@ -816,6 +835,13 @@ ssize_t write(int fd, const void *buf, size_t n)
     do_init();
     const char *rel = fd_rel(fd);
     if (!rel) {
+        if (active && stdout_dies_with_signal && signal_raised && (fd == 1 || fd == 2)) {
+            static int told = 0;
+            if (!__sync_fetch_and_add(&told, 1))
+                tracef("-\tSTDOUT_FAIL\tfd%d\t0\t0\t0\t32\tepipe\n", fd);
+            errno = EPIPE;
+            return -1;
+        }
         if (active && stdout_fail_after > 0 && (fd == 1 || fd == 2)) {
             long c = __sync_add_and_fetch(&stdout_writes, 1);
             if (c >= stdout_fail_after) {
@@ -895,7 +921,10 @@ int rename(const char *a, const char *b)
     long ret;
     if (op_fail(&c, &err))
         ret = -1;
-    else {
+    else if (mount_len && in_mount(wa ? ra : "") != in_mount(wb ? rb : "")) {
+        ret = -1;
+        err = EXDEV;
+    } else {
         ret = real_rename(a, b);
         err = errno;
     }
@@ -918,7 +947,10 @@ static int renameat_common(int da, const char *a, int db, const char *b, unsigne
     long ret;
     if (op_fail(&c, &err))
         ret = -1;
-    else {
+    else if (mount_len && in_mount(wa ? ra : "") != in_mount(wb ? rb : "")) {
+        ret = -1;
+        err = EXDEV;
+    } else {
         ret = has2 ? real_renameat2(da, a, db, b, flags) : real_renameat(da, a, db, b);
         err = errno;
     }
@@ -1350,6 +1382,8 @@ int stat64(const char *p, struct stat64 *st)
     else {
         ret = real_stat(p, (struct stat *)st);
         err = errno;
+        if (ret == 0 && in_mount(rel))
+            st->st_dev ^= MOUNT_DEV_XOR;
     }
     op_end(&c, 0, 0, ret, err);
     return (int)ret;
@@ -1368,6 +1402,8 @@ int lstat64(const char *p, struct stat64 *st)
     else {
         ret = real_lstat(p, (struct stat *)st);
         err = errno;
+        if (ret == 0 && in_mount(rel))
+            st->st_dev ^= MOUNT_DEV_XOR;
     }
     op_end(&c, 1, 0, ret, err);
     return (int)ret;
@@ -1386,6 +1422,8 @@ int fstatat64(int d, const char *p, struct stat64 *st, int fl)
     else {
         ret = real_fstatat(d, p, (struct stat *)st, fl);
         err = errno;
+        if (ret == 0 && in_mount(rel))
+            st->st_dev ^= MOUNT_DEV_XOR;
     }
     op_end(&c, 2, 0, ret, err);
     return (int)ret;
@@ -1408,6 +1446,8 @@ int statx(int d, const char *p, int fl, unsigned int mask, struct statx *st)
     else {
         ret = real_statx(d, p, fl, mask, st);
         err = errno;
+        if (ret == 0 && in_mount(rel))
+            st->stx_dev_minor ^= MOUNT_DEV_XOR;
     }
     op_end(&c, 3, 0, ret, err);
     return (int)ret;
@@ -1530,6 +1570,7 @@ struct dirent64 *readdir64(DIR *d)
         die_now();
     if (c.sig_after) {
         tracef("-\tSIGNAL\t%s\t%d\t%ld\t0\t0\tafter\n", b->rel, c.sig_after, c.k);
+        signal_raised = 1;
         raise(c.sig_after);
     }
     pthread_mutex_unlock(&mu);
